@@ -299,7 +299,8 @@ def check_C14(tier, seed):
     cases = dg.cases(tier, seed)
     failures, tie, evaluations, distinct = run_derive_cases(cases, "main")
     # inherent cloning API: compiles iff Clone was requested
-    api_sets = [[], ["Debug"], ["Clone"], ["Debug", "PartialEq", "Clone"], ["Default"], ["PartialEq", "Eq"]]
+    api_sets = [[], ["Debug"], ["Clone"], ["Debug", "PartialEq", "Clone"], ["Default"], ["PartialEq", "Eq"],
+                ["Serialize", "Deserialize"], ["Serialize"], ["Deserialize", "Debug"], ["Serialize", "Clone", "Deserialize"], ["Clone", "Debug"], ["Debug", "Clone", "Default"]]
     def api(ts):
         prog, expect = dg.clone_api_probe(ts)
         ok, codes, err = probes.check_compile("derive_api_" + "_".join(ts or ["none"]), prog)
